@@ -95,3 +95,18 @@ pub assume_specification[ <usize as core::str::FromStr>::from_str ](s: &str) -> 
             Ok(n) => n == sh_dec_value(str_bytes(s)),
             Err(_) => sh_dec_value(str_bytes(s)) > usize::MAX,
         });
+
+pub open spec fn sh_all_oct_digits(v: Seq<u8>) -> bool { forall|i: int| 0 <= i < v.len() ==> 48 <= #[trigger] v[i] <= 55 }
+pub open spec fn sh_oct_value(s: Seq<u8>) -> nat
+    decreases s.len()
+{
+    if s.len() == 0 { 0 } else { sh_oct_value(s.drop_last()) * 8 + (s.last() - 48) as nat }
+}
+// ASSUMED (std docs, `u32::from_str_radix(s, 8)`): a non-empty string of octal digits parses to its octal value if that
+// fits `u32` and gives an error otherwise.  Nothing is said about other strings or radices.
+pub assume_specification[ u32::from_str_radix ](s: &str, radix: u32) -> (r: Result<u32, core::num::ParseIntError>)
+    ensures
+        (radix == 8 && str_bytes(s).len() > 0 && sh_all_oct_digits(str_bytes(s))) ==> (match r {
+            Ok(n) => n == sh_oct_value(str_bytes(s)),
+            Err(_) => sh_oct_value(str_bytes(s)) > u32::MAX,
+        });
